@@ -157,11 +157,16 @@ def file_body(CASE):
         text[-1] = text[-1][:-1]            # the file does not end with a newline
     if CASE.endswith(":pre"):
         # comment / blank lines before the data (they are not data lines in either format)
-        text = (["\n", "# drawer dump, no address column here\n"] if f == 0 else ["# taken at 12:30: drawer 7\n", "\n"]) + text
+        text = (["\n", "# drawer dump, no address column here\n"] if f == 0 else ["# taken at 12:30: drawer 7, J\u00fcrgen, 25 \u00b0C\n", "\n"]) + text
     try:
         rec_raw, lines_raw = run(data)
         rec, lines = [], None
-        with patched(dump, open=lambda p_, *a, **k: _F(text),
+        def _open_enc(p_, *a, **k):
+            # the file is UTF-8 text on disk: an explicit codec asked for by the code is applied to its bytes
+            if k.get("encoding"):
+                return _F([ln.encode("utf-8").decode(k["encoding"]) if not is_sym(ln) and ln.startswith("#") else ln for ln in text])
+            return _F(text)
+        with patched(dump, open=_open_enc,
                      parse_ilog_data=lambda d, f_: rec.append(("ilog", d, f_)) or ["<ilog %d>" % len(d)],
                      parse_trace_data=lambda d, f_: rec.append(("trace", d, f_)) or ["<trace %d>" % len(d)]):
             lines = dump.parse_dump_file("/dump.txt", "/hdr.h", "/strings")
